@@ -3,6 +3,8 @@ alphabet), forked execution, determinism / fork-vs-plain self tests, evidence.""
 
 from __future__ import annotations
 
+import os
+
 from . import core, explorer, treecheck, treeops
 
 FULL = {
@@ -51,7 +53,13 @@ IDGC = dict(FULL, ops=["mk_group", "rename", "gc", "reopen"], uid_reuse=True, de
 RETYPE = dict(FULL, ops=["rm_ws", "gc", "reopen", "values"], retype=True, defer=False, pg_foreign=False, ws2=False)
 # copies only (with and without children, same and other workspace): identifier policy of copies
 COPYONLY = dict(FULL, ops=["copy", "pg_add"], defer=False, pg_foreign=False, retype=False, copy_data=False)
-ALPHAS = {"COPYONLY": COPYONLY, "RETYPE": RETYPE, "IDGC": IDGC, "FULLND": FULLND, "FULL": FULL, "STRUCT": STRUCT, "EDIT": EDIT, "DEL": DEL, "DELCORE": DELCORE, "IDS": IDS, "GCOPS": GCOPS}
+# property groups declared without members (children of an object that are not entities and
+# that no removal of data empties), then removals / re-creations / copies
+PGDECL = dict(IDS, ops=["mk_obj", "add_data", "pg_add", "pg_rm", "copy", "rm_ws", "rm_par", "reopen", "gc"], pg_declare=("E",), pg_foreign=False, retype=False,
+              defer=False, copy_data=False)
+# removals around declared-but-empty property groups
+PGDEL = dict(DELCORE, ops=["add_data", "pg_add", "pg_rm", "rm_ws", "rm_par", "rm_par_all", "copy", "reopen", "gc"], pg_declare=("E",))
+ALPHAS = {"PGDEL": PGDEL, "PGDECL": PGDECL, "COPYONLY": COPYONLY, "RETYPE": RETYPE, "IDGC": IDGC, "FULLND": FULLND, "FULL": FULL, "STRUCT": STRUCT, "EDIT": EDIT, "DEL": DEL, "DELCORE": DELCORE, "IDS": IDS, "GCOPS": GCOPS}
 
 DROP_ASC = {"uid_order": "asc", "policy": "drop"}
 HOLD_DESC = {"uid_order": "desc", "policy": "hold"}
@@ -103,7 +111,10 @@ class TreeProp:
         total = {"states": 0, "transitions": 0, "model_states": 0}
         runs = []
         seeds = []
-        for scene, cfg, depth, alpha in self.quick_plan if ctx.quick else self.thorough_plan:
+        plan = self.quick_plan if ctx.quick else self.thorough_plan
+        if os.environ.get("VERIF_ONLY_ALPHA"):  # development aid: one alphabet of the plan
+            plan = [r for r in plan if r[3] == os.environ["VERIF_ONLY_ALPHA"]]
+        for scene, cfg, depth, alpha in plan:
             seed_h = {"property": self.prop, "cfg": cfg, "scene": scene, "alpha": alpha, "ops": []}
             st = explorer.explore(ctx, self.run_one, [seed_h], depth, cost=treeops.deviations, budget=budget)
             runs.append({"scene": scene, "cfg": cfg, "depth": depth, "alphabet": alpha,
